@@ -93,9 +93,10 @@ static int        g_obs_walk = 0, g_obs_owner = 0, g_obs_released = 0, g_obs_aba
 static int        g_check_errors = 1;  /* secondary oracle: unexpected mi error callback */
 static int        g_threads_used = 0;
 #define NREL 6
-static struct { uint8_t* p; size_t req, usable; int linked; int valid; mi_page_t* page; } g_rel[NREL]; static int g_nrel;   /* recently released blocks (fault targets) */
+static struct { uint8_t* p; size_t req, usable; int linked; int valid; mi_page_t* page; int popped; } g_rel[NREL]; static int g_nrel;   /* recently released blocks (fault targets) */
 static mi_arena_id_t g_arena = 0; static uintptr_t g_arena_lo, g_arena_hi, g_map_lo, g_map_hi, g_given_lo, g_given_hi; static int g_arena_excl; static int g_heap_in_arena[NHEAPS];
 static int        g_pending_links = 0;      /* forged links not yet reached by the allocator */
+static int        g_links_popped = 0, g_efaults_seen = 0;   /* blocks with a forged link that were handed out again / corruption reports so far */
 static int        g_faulted = 0;            /* debug builds: stop the branch after the first reported fault */
 static int        g_pending[NHEAPS + 1];    /* heap slot has (possibly) pending cross-thread frees: C12 claims nothing about extra reports then */
 #define PENDING(h) g_pending[(h) < 0 ? NHEAPS : (h)]
@@ -148,7 +149,7 @@ static const profile_t profiles[] = {
     .realloc_al = 1, .rsizes = { 100, 9 * KiB }, .nr = 2, .free_variants = 1, .maxlive = 5, .free_window = 5 },
   /* P5m: over-allocated aligned blocks (interior pointers) in pages that move inside their queue (start state S7) or change
      owner (a helper thread allocates them and terminates) */
-  { .name = "P5m", .asizes = { { 8292, 4096 } }, .na = 1, .realloc_al = 1, .rsizes = { 9 * KiB }, .nr = 1, .free_variants = 1, .collect1 = 1, .thread_aligned = 1, .maxlive = 48, .free_window = 4 },
+  { .name = "P5m", .asizes = { { 8292, 4096 } }, .na = 1, .realloc_al = 1, .rsizes = { 9 * KiB, 13000 }, .nr = 2, .expand = 1, .free_variants = 1, .collect1 = 1, .thread_aligned = 1, .maxlive = 48, .free_window = 4 },
   /* P6w: heap walk incl. remote frees and abandoned pages, 64-blocks-per-word boundary */
   { .name = "P6w", .msizes = { 1024, 512 }, .nm = 2, .fills = { 1024 }, .nf = 1, .walk = 1, .remote_free = 1, .collect0 = 1, .maxlive = 80, .free_window = 4 },
   /* P6x: 64 blocks of 1 KiB fill exactly one bitmap word of the walk; 512 B blocks (127 per page) a full word plus a partial one */
@@ -159,6 +160,9 @@ static const profile_t profiles[] = {
   { .name = "P6a", .msizes = { 8 * KiB, 1 * MiB, 17 * MiB }, .nm = 3, .hsizes = { 8 * KiB, 1 * MiB, 17 * MiB }, .nh = 3, .arena = 1, .collect1 = 1, .maxlive = 8, .free_window = 4 },
   /* P9s: hardened builds (C17): a full page of 8 blocks, frees, and the three fault operations at every position */
   { .name = "P9s", .msizes = { 8000, 100 }, .nm = 2, .fills = { 8000 }, .nf = 1, .faults = 1, .maxlive = 12, .free_window = 4 },
+  /* P9g: hardened builds: a small size class whose pages start behind a gap at the beginning of their slice; start state S8 leaves
+     the page's free list empty, so the next allocation takes the most recently released block (and reads its link) */
+  { .name = "P9g", .msizes = { 40 }, .nm = 1, .faults = 1, .maxlive = 120, .free_window = 2 },
   /* P8o: option sweep profile (C13): merged alphabet incl. clock ticks */
   { .name = "P8o", .msizes = { 8 * KiB, 64 * KiB, 1 * MiB, 17 * MiB }, .nm = 4, .zsizes = { 8 * KiB }, .nz = 1, .rsizes = { 100 * KiB }, .nr = 1,
     .collect0 = 1, .collect1 = 1, .ticks = { 1000 }, .nt = 1, .maxlive = 5, .free_window = 5 },
@@ -278,11 +282,19 @@ static int check_abandoned(void) {
   }
   if (w->n > 0) VF_INC(nontrivial);
   if (w->n > 0) VF_INC(counters[4]);
-  /* early stop */
+  /* early stop; and a stopped walk must not change what the next complete walk reports */
   if (w->calls >= 2) {
-    walk_t* w2 = &g_walk_ab; memset(w2, 0, offsetof(walk_t, stop_after)); w2->stop_after = 2; w2->calls = 0;
-    bool r = mi_abandoned_visit_blocks(mi_subproc_main(), -1, true, &walk_cb, w2);
-    if (r || w2->calls != 2) { vf_violation("abandoned-walk-stop", "visitor returned false at call 2 but the walk made %d calls and returned %d", w2->calls, (int)r); return -1; }
+    int n1 = w->n; uint64_t h1 = 0; for (int k = 0; k < w->n; k++) h1 += vf_mix((uintptr_t)w->blk[k] ^ (w->sz[k] << 48));
+    for (int stop = 2; stop <= 3 && stop <= w->calls; stop++) {
+      walk_t* w2 = &g_walk_ab; memset(w2, 0, offsetof(walk_t, stop_after)); w2->stop_after = stop; w2->calls = 0;
+      bool r = mi_abandoned_visit_blocks(mi_subproc_main(), -1, true, &walk_cb, w2);
+      if (r || w2->calls != stop) { vf_violation("abandoned-walk-stop", "visitor returned false at call %d but the walk made %d calls and returned %d", stop, w2->calls, (int)r); return -1; }
+      walk_t* w3 = &g_walk_ab; memset(w3, 0, offsetof(walk_t, stop_after)); w3->stop_after = 0; w3->calls = 0;
+      bool r3 = mi_abandoned_visit_blocks(mi_subproc_main(), -1, true, &walk_cb, w3);
+      uint64_t h3 = 0; for (int k = 0; k < w3->n; k++) h3 += vf_mix((uintptr_t)w3->blk[k] ^ (w3->sz[k] << 48));
+      VF_INC(checks);
+      if (!r3 || w3->n != n1 || h3 != h1) { vf_violation("abandoned-walk-after-stop", "a complete walk reported %d blocks; after a walk that the visitor stopped at call %d the next complete walk reports %d blocks (returned %d)", n1, stop, w3->n, (int)r3); return -1; }
+    }
   }
   return 0;
 }
@@ -313,7 +325,7 @@ static int rel_page_live(mi_page_t* page, const uint8_t* self) {
 static void rel_record(const vf_blk_t* b) {
   if (!g_prof->faults) return;
   if (g_nrel == NREL) { memmove(&g_rel[0], &g_rel[1], sizeof(g_rel[0]) * (NREL - 1)); g_nrel--; }
-  g_rel[g_nrel].p = b->p; g_rel[g_nrel].req = b->req; g_rel[g_nrel].usable = b->usable; g_rel[g_nrel].linked = 0;
+  g_rel[g_nrel].p = b->p; g_rel[g_nrel].req = b->req; g_rel[g_nrel].usable = b->usable; g_rel[g_nrel].linked = 0; g_rel[g_nrel].popped = 0;
   g_rel[g_nrel].page = _mi_ptr_page(b->p);
   g_rel[g_nrel].valid = (b->req <= MI_MEDIUM_OBJ_SIZE_MAX && rel_page_live(g_rel[g_nrel].page, b->p));
   g_nrel++;
@@ -373,10 +385,17 @@ static int vf_check_node(void) {
   if (check_arena_node() != 0) return -1;
   if (g_pending_links > 0 && vf_err_count > 0 && vf_err_last == EFAULT) {
     /* the allocator reached a forged link and reported it instead of following it */
-    VF_INC(counters[7]); g_pending_links -= 1; vf_err_count = 0;
+    VF_INC(counters[7]); g_pending_links -= 1; g_efaults_seen += 1; vf_err_count = 0;
 #if MI_DEBUG
     g_faulted = 1;
 #endif
+  }
+  if (g_prof->faults) {
+    /* a block whose link was forged is handed out again: the allocator read that link when it took the block off its list, so
+       by now it must have reported it (once per forged link) */
+    for (int k = 0; k < g_nrel; k++) if (g_rel[k].linked && !g_rel[k].popped) for (int i = 0; i < vf_nlive; i++) if (vf_live[i].p == g_rel[k].p) { g_rel[k].popped = 1; g_links_popped++; break; }
+    VF_INC(checks);
+    if (g_links_popped > g_efaults_seen) { vf_violation("forged-link-followed", "%d block(s) whose free-list link was overwritten have been handed out again, but only %d corruption report(s) (EFAULT) were raised: a forged link was read without being reported", g_links_popped, g_efaults_seen); return -1; }
   }
   if (g_check_errors && vf_err_count > 0) { vf_violation("error-callback", "mimalloc reported error %d although the history is legal", vf_err_last); return -1; }
   if (g_prof->faults) {
@@ -498,9 +517,21 @@ static int vf_apply(vf_op_t op) {
     case OP_LINK: {
       int k = (int)op.a; if (k < 0 || k >= g_nrel || g_rel[k].linked) return 0;
       mi_page_t* page = _mi_ptr_page(g_rel[k].p);
-      /* forged target: b=0 an address in another segment-sized region, b=1 the address of a live block of another page */
+      /* forged target: b=0 an address in another segment-sized region, b=1 the address of a live block of another page,
+         b=2 / b=3 addresses of the same segment outside the page's block area (see below) */
       void* target = (op.b == 0 ? (void*)((uintptr_t)g_rel[k].p + 3 * MI_SEGMENT_SIZE + 64) : NULL);
       if (op.b == 1) { for (int i = 0; i < vf_nlive; i++) if (_mi_ptr_page(vf_live[i].p) != page) { target = vf_live[i].p; break; } if (!target) return 0; }
+      if (op.b == 2) {   /* the gap between the start of the page's first slice and the start of its block area */
+        uint8_t* ps = mi_page_start(page); uint8_t* ss = (uint8_t*)((uintptr_t)ps & ~(uintptr_t)(MI_SEGMENT_SLICE_SIZE - 1));
+        if (ps - ss < 32) return 0;
+        target = ss + 16;
+      }
+      if (op.b == 3) {   /* an address of the same segment, 128 KiB behind the block (another page or free slices) */
+        target = (void*)((uintptr_t)g_rel[k].p + 2 * MI_SEGMENT_SLICE_SIZE);
+        /* (slice arithmetic only: the allocator's own lookup functions assert on addresses that belong to no page) */
+        uintptr_t pa = (uintptr_t)mi_page_start(page) & ~(uintptr_t)(MI_SEGMENT_SLICE_SIZE - 1), pe = pa + (uintptr_t)page->slice_count * MI_SEGMENT_SLICE_SIZE;
+        if (_mi_ptr_segment(target) != _mi_ptr_segment(g_rel[k].p) || ((uintptr_t)target >= pa && (uintptr_t)target < pe)) return 0;
+      }
 #if (MI_ENCODE_FREELIST)
       ((mi_block_t*)g_rel[k].p)->next = mi_ptr_encode(page, target, page->keys);
 #else
@@ -607,8 +638,10 @@ static int vf_apply(vf_op_t op) {
       int h = (int)op.a; if (h <= 0 || g_heaps[h] == NULL) return 0;
       mi_heap_delete(g_heaps[h]);
       g_heaps[h] = NULL; g_pending[0] |= g_pending[h]; g_pending[h] = 0;
-      if (g_heap_in_arena[h]) { g_heap_in_arena[h] = 0; for (int i = 0; i < vf_nlive; i++) if (vf_live[i].heap == 0 && 0) {} }
-      for (int i = 0; i < vf_nlive; i++) if (vf_live[i].heap == h) vf_live[i].heap = 0;   /* migrated to the backing heap */
+      /* blocks migrate to the backing heap -- unless the deleted heap was bound to an arena: those blocks stay what they
+         are (memory of that arena, marker -2), and nothing else may be served from their pages by an unbound heap */
+      for (int i = 0; i < vf_nlive; i++) if (vf_live[i].heap == h) vf_live[i].heap = (g_heap_in_arena[h] ? -2 : 0);
+      g_heap_in_arena[h] = 0;
       if (g_default == h) g_default = 0;
       VF_INC(counters[2]);
       return 0;
@@ -688,6 +721,7 @@ static int vf_list_ops(vf_op_t* out, int max) {
   if (P->arena) {
     if (g_heaps[1] == NULL) PUSH(OP_AHEAP_NEW, 0, 0);
     else if (can_alloc) for (int i = 0; i < P->nh; i++) PUSH(OP_HMALLOC, 1, P->hsizes[i]);
+    if (g_heaps[1] != NULL) PUSH(OP_HEAP_DELETE, 1, 0);
     if (can_alloc) { PUSH(OP_THREAD_ARENA, 8 * KiB, 0); PUSH(OP_THREAD_MANY, 8 * KiB, 12); }
   }
   if (P->faults) {
@@ -699,7 +733,7 @@ static int vf_list_ops(vf_op_t* out, int max) {
       if (relive) g_rel[k].valid = 0;          /* handed out again: no longer a released block */
       if (!g_rel[k].valid) continue;
       if (!g_rel[k].linked && g_pending_links == 0) PUSH(OP_DFREE, k, 0);
-      if (!g_rel[k].linked) { PUSH(OP_LINK, k, 0); PUSH(OP_LINK, k, 1); }
+      if (!g_rel[k].linked) { PUSH(OP_LINK, k, 0); PUSH(OP_LINK, k, 1); PUSH(OP_LINK, k, 2); PUSH(OP_LINK, k, 3); }
     }
     for (int k = 0; k < ni; k++) { const vf_blk_t* b = &vf_live[idx[k]]; if (b->req < mi_page_usable_block_size(_mi_ptr_page(b->p))) PUSH(OP_OVER, idx[k], 0); }
   }
@@ -774,6 +808,13 @@ static int build_start(const char* s) {
     mi_memid_t memid;
     void* blk = _mi_arena_alloc((size_t)62 * MI_ARENA_BLOCK_SIZE, false, false, aid, &memid);
     if (blk == NULL) { fprintf(stderr, "cannot pre-claim arena blocks\n"); return 2; }
+    return 0;
+  }
+  if (strcmp(s, "S8") == 0) {
+    for (int k = 0; k < 100; k++) {
+      if (do_op(OP_MALLOC, 40, 0)) return 1;
+      if (_mi_ptr_page(vf_live[vf_nlive - 1].p)->free == NULL) break;
+    }
     return 0;
   }
   if (strcmp(s, "S7") == 0) {
